@@ -899,7 +899,13 @@ def parse_tree_to_objgraph(
 
         # call obj_proc of rule found in grammar
         if metamodel.has_obj_processor(metaclass_of_grammar_rule.__name__):
-            loc = get_location(model_obj)
+            # An abstract rule may also yield values of match rules and base
+            # types (e.g. `Val: Obj | STRING | INT;`). These are plain Python
+            # values and carry no location.
+            if hasattr(model_obj, "_tx_position"):
+                loc = get_location(model_obj)
+            else:
+                loc = {"filename": None, "line": None, "col": None}
             return_value_grammar = metamodel.process(
                 model_obj, metaclass_of_grammar_rule.__name__, **loc
             )
